@@ -125,3 +125,17 @@ func (t *C15Trigger) Feed(s connectivity.State) {
 	t.conn.mu.Unlock()
 	t.w.updateState(t.conn)
 }
+
+// C15Cache returns a copy of the cluster's cached key->value snapshot of a key
+// (diagnostics in witnesses only; no verdict depends on it).
+func C15Cache(endpoints []string, key string) map[string]string {
+	c := c15Cluster(endpoints)
+	if c == nil {
+		return nil
+	}
+	out := map[string]string{}
+	for _, kv := range c.getCurrent(key) {
+		out[kv.Key] = kv.Val
+	}
+	return out
+}
